@@ -286,6 +286,22 @@ Inductive chain : list crec -> Prop :=
 | chain_one r t : cr_txs r = [t] -> cr_next r = None -> chain [r]
 | chain_cons r1 r2 l : link r1 r2 -> chain (r2 :: l) -> chain (r1 :: r2 :: l).
 
+(* the executable form of [chain], run on the records read back from a store *)
+Definition linkb (r1 r2 : crec) : bool :=
+  match cr_txs r1, cr_txs r2, cr_next r1, cr_ref r2 with
+  | [t1], [t2], Some n, Some p => (n =? t2)%N && (p =? t1)%N && (cr_ts r1 <? cr_ts r2)
+  | _, _, _, _ => false
+  end.
+Fixpoint chainb (l : list crec) : bool :=
+  match l with
+  | [] => false
+  | r :: tl =>
+      match tl with
+      | [] => match cr_txs r, cr_next r with [_], None => true | _, _ => false end
+      | r2 :: _ => linkb r r2 && chainb tl
+      end
+  end.
+
 (* ===================================================================== *)
 (* Part B: ledger model for C16                                           *)
 (* ===================================================================== *)
